@@ -108,7 +108,21 @@ def gen_tasks(tier, seed):
 
 
 def corpus_tasks():
-    """Witnesses of the three repaired C03 defects (corpus/reproducers/c03_*.py, d5_sharded_nan.py): must pass now."""
+    """corpus/C03/*.json (run first); falls back to the built-in witnesses when the directory is missing."""
+    import glob
+    import json
+    files = sorted(glob.glob(os.path.join(kit.ROOT, "corpus", "C03", "*.json")))
+    if not files:
+        return _builtin_corpus()
+    tasks = []
+    for f in files:
+        tasks += json.load(open(f))["tasks"]
+    return tasks
+
+
+def _builtin_corpus():
+    """Witnesses of the three repaired C03 defects (corpus/reproducers/c03_*.py, d5_sharded_nan.py): must pass now.
+    corpus/C03/defect_witnesses.json is the dump of this list."""
     T = 4
     t = []
     # 5c7d9fd: only 1x1 statistics, Newton: NaN gradient / zero gradient with matrix_epsilon = 0
